@@ -1,11 +1,13 @@
 """C06 — type registry hands out unique, stable, correctly described types
-(mptcore/types/type_traits.c, types.h, alias_typeid.c, type_int.c, message/msgvalfmt.c)."""
+(mptcore/types/type_traits.c, types.h, alias_typeid.c, type_int.c, message/msgvalfmt.c, mpt++/type_traits_wrap.cpp)."""
 import os, re
 import vcheck
 from vcheck import DiffProperty
 
 ARITY = {"ba": 1, "ga": 2, "ia": 1, "ma": 1, "baN": 2, "gaN": 2, "iaN": 2, "maN": 2, "lt": 1, "li": 1, "lm": 1,
-         "ln": 2, "al": 2, "ti": 1, "tu": 1, "vs": 1, "vt": 1, "vc": 1, "sw": 0}
+         "ln": 2, "al": 2, "ti": 1, "tu": 1, "vs": 1, "vt": 1, "vc": 1, "sw": 0, "fin": 0}
+# operations the C++ wrappers of mpt++/type_traits_wrap.cpp offer (cases with the marker "cxx")
+CXX_OPS = ("ba", "ga", "ia", "ma", "baN", "gaN", "iaN", "maN", "lt", "ln")
 
 BUILTIN_NAMES = ["convertable", "logger", "reply", "output", "object", "config", "iterator", "collection", "solver", "metatype"]
 ALIASES = ["log", "iter", "out", "meta"]
@@ -29,7 +31,10 @@ class C06(DiffProperty):
             "named interface, named metatype; single or repeated n times) interleaved with lookups by id (mpt_type_traits, "
             "mpt_interface_traits, mpt_metatype_traits), by name (full/alias, length-limited with every length around the name length, "
             "mpt_alias_typeid descriptions) and the type_int/msgvalfmt helpers; 'sw' looks up every id 0..0x1100 and, for every named id, "
-            "its name in both lookup modes. Classes: every capacity reached and exceeded (64 basic, 48+16 interfaces, 1791+1 metatypes, "
+            "its name in both lookup modes; 'fin' = process exit (the atexit clean-up functions run in exit order through seams for atexit/free: "
+            "every block reachable from the statics freed exactly once, nothing else freed, statics reset), operations after it see the registry a "
+            "later exit handler would see; cases marked 'cxx' run the same registrations/lookups through the C++ wrappers of "
+            "mpt++/type_traits_wrap.cpp (ints incl. negative and INT_MIN/INT_MAX for type_traits::get(int), default arguments). Classes: every capacity reached and exceeded (64 basic, 48+16 interfaces, 1791+1 metatypes, "
             "1792 generic), counts at chunk multiples of 30 +-1, duplicate/cross-kind/builtin/alias/short names, ids at every range end; "
             "a case is non-trivial when it registers something or looks something up; distinct = distinct case text")
     modelled = ("mptcore/types/type_traits.c (all entry points), types/alias_typeid.c, types/type_int.c, message/msgvalfmt.c transcribed in "
@@ -37,9 +42,13 @@ class C06(DiffProperty):
                 "source by harness/c06_probe.c (coq/C06/Gen_Types.v); abstract specification S in coq/C06/RegistrySpec.v (finite map id -> "
                 "(kind, description, optional name), finite map name -> id, one next-free counter per kind over the ranges of types.h; "
                 "fresh state built from the independent list g_ctype_sizes); abstraction function and output projection in RegistryAbs.v; "
-                "lazy table creation is modelled as done at start; malloc failure and the atexit clean-up are not modelled; "
+                "mpt++/type_traits_wrap.cpp: type_traits::get(int) as OpWrapTraits (int -> uintptr_t conversion), the other wrappers are "
+                "the forwarded operations; process exit: state reset to the fresh registry, fini_counts = released registered entries/chunks "
+                "(which built-in tables exist at exit depends on lazy creation, which is modelled as done at start and therefore not "
+                "compared); malloc failure is not modelled; "
                 "errno/error-code kinds and the raw positions of a sweep are compared between code and M but are not part of S")
-    trusted = ["harness/c06_probe.c: the list of C types each named built-in id stands for (ctypes[]) is hand-written from types.h; everything else "
+    trusted = ["harness/c06_wrap.cpp compiles mpt++/type_traits_wrap.cpp into its own translation unit (same source, no mpt++ archive)",
+               "harness/c06_probe.c: the list of C types each named built-in id stands for (ctypes[]) is hand-written from types.h; everything else "
                "in Gen_Types.v is read from the included type_traits.c or obtained by calling the code",
                "harness/c06_types.c runs each case in a forked child of a parent that never touches the registry; it reads "
                "interface_pos/dynamic_pos/chunk fill directly from the static variables of the included type_traits.c",
@@ -54,7 +63,9 @@ class C06(DiffProperty):
                   "fits uintptr_t. (2) The property on S: C06_spec_ids_unique, C06_spec_ids_in_kind_range, C06_spec_lookup_stable, "
                   "C06_spec_refusal_preserves, transferred to the mechanism by C06_ids_unique_via_spec, C06_ids_in_kind_range_via_spec, "
                   "C06_lookup_stable_via_spec, C06_builtins_exactly_listed (every id the fresh registry describes is a listed built-in with "
-                  "the sizeof of its C type AND every listed one is described so after every history). (3) Direct theorems on the mechanism "
+                  "the sizeof of its C type AND every listed one is described so after every history); C06_cxx_get_transparent (the C++ "
+                  "wrapper get(int) is mpt_type_traits on non-negative ints and finds nothing on negative ones, for all ints) and "
+                  "C06_exit_releases_registered (the atexit clean-up releases as many registered entries as ids were handed out). (3) Direct theorems on the mechanism "
                   "model, no op_wf: C06_ids_unique, C06_issued_fresh, C06_ids_in_kind_range, C06_lookup_stable, C06_name_id_bijection, "
                   "C06_dup_or_short_refused, C06_exhaustion_preserves, C06_exhausted_refused, C06_no_fault, C06_builtin_sizes_correct / "
                   "C06_helpers_consistent (finite sweeps over the generated tables). All facts about generated bounds/tables are re-checked "
@@ -63,10 +74,12 @@ class C06(DiffProperty):
                   "I vs S after dropping error kinds and mechanism positions")
     level_note = ("trusted: Coq kernel; hand transcription of type_traits.c/alias_typeid.c/type_int.c/msgvalfmt.c (validated by the "
                   "correspondence run, not verified); the probe's list of C types behind the built-in ids; extraction and OCaml driver; "
-                  "harness. Not modelled: malloc failure, atexit clean-up, C++ wrappers (mpt++/type_traits_wrap.cpp). "
+                  "harness (incl. the atexit/free seams and the block census of 'fin', which is written against the statics, not against "
+                  "the clean-up code). Not modelled: malloc failure; the ORDER of lazy table creation (hence which built-in tables exist at "
+                  "exit) - the harness checks those blocks itself; the C++ template layer above the wrappers (type_properties<T>). "
                   "The refinement theorems assume op_wf (ids < 2^g_WordBits, i.e. representable as uintptr_t); finite maps of S are "
                   "sorted association lists (canonical, so state refinement is an equation). "
-                  "All 24 theorems are closed under the global context (no axioms).")
+                  "All 26 theorems are closed under the global context (no axioms).")
     technique = "Coq refinement proof (mechanism model [= finite-map specification, every operation, all histories) + invariant proofs + generated-table sweep + differential correspondence check"
     assumptions = ["malloc/calloc succeed", "the caller keeps registered generic traits objects alive and unchanged",
                    "single-threaded use of the registry"]
@@ -93,7 +106,38 @@ class C06(DiffProperty):
     def warm(self):
         vcheck.build_harness("c06_probe.c", ["mptcore"])
         vcheck.build_harness(self.harness_src, self.libs, extra=self.extra_harness_flags)
+        vcheck.build_harness(self.cxx_harness_src, self.libs)
         vcheck.build_model(self.mlname, self.driver, self.extract_vo)
+
+    # ---------------------------------------------------------------- two harness binaries
+    # cases that start with the marker "cxx" are run through the C++ wrappers (harness/c06_wrap.cpp, which
+    # compiles mpt++/type_traits_wrap.cpp into its translation unit), the others through harness/c06_types.c
+    cxx_harness_src = "c06_wrap.cpp"
+
+    @staticmethod
+    def is_cxx(case):
+        return case.split()[:1] == ["cxx"]
+
+    def evaluate(self, cases, workdir, tagsuffix=""):
+        hx = vcheck.build_harness(self.harness_src, self.libs, extra=self.extra_harness_flags)
+        mx = vcheck.build_model(self.mlname, self.driver, self.extract_vo)
+        ided = ["c%d %s" % (i, c) for i, c in enumerate(cases)]
+        c_cases = [l for l, c in zip(ided, cases) if not self.is_cxx(c)]
+        x_cases = [l for l, c in zip(ided, cases) if self.is_cxx(c)]
+        I, errs = {"I": {}}, []
+        if c_cases:
+            r, e = vcheck.run_cases(hx, c_cases, workdir, "impl" + tagsuffix, env=self.harness_env, args=self.harness_args)
+            I["I"].update(r.get("I", {})); errs += e
+        if x_cases:
+            cx = vcheck.build_harness(self.cxx_harness_src, self.libs)
+            r, e = vcheck.run_cases(cx, x_cases, workdir, "implcxx" + tagsuffix, env=self.harness_env, args=self.harness_args)
+            I["I"].update(r.get("I", {})); errs += e
+        M, e2 = vcheck.run_cases(mx, ided, workdir, "model" + tagsuffix)
+        res = []
+        for i, c in enumerate(cases):
+            k = "c%d" % i
+            res.append(self.compare(c, I["I"].get(k), M.get("M", {}).get(k), M.get("S", {}).get(k)))
+        return res, errs + e2
 
     # ---------------------------------------------------------------- views
     def project(self, tok):
@@ -107,6 +151,9 @@ class C06(DiffProperty):
 
     def split(self, case):
         t = case.split()
+        hdr = []
+        if t[:1] == ["cxx"]:
+            hdr, t = ["cxx"], t[1:]
         ops = []
         i = 0
         while i < len(t):
@@ -115,7 +162,7 @@ class C06(DiffProperty):
                 n = 1
             ops.append(t[i:i + n + 1])
             i += n + 1
-        return [], ops
+        return hdr, ops
 
     def shrink_candidates(self, case):
         hdr, ops = self.split(case)
@@ -140,8 +187,12 @@ class C06(DiffProperty):
                     yield self.join(hdr, ops[:k] + [["lt", hex(i)]] + ops[k + 1:])
 
     def classify(self, case):
-        _, ops = self.split(case)
+        hdr, ops = self.split(case)
         cl = set()
+        if hdr:
+            cl.add("cxx-wrappers")
+            if any(o[0] == "lt" and int(o[1], 0) < 0 for o in ops):
+                cl.add("cxx-negative-id")
         tot = {"b": 0, "g": 0, "i": 0, "m": 0}
         names = []
         for o in ops:
@@ -163,9 +214,9 @@ class C06(DiffProperty):
                 if nm in ALIASES:
                     cl.add("alias-name")
                 names.append(nm)
-            if o[0] == "ln" and o[2] not in ("-1",):
+            if o[0] == "ln" and o[2] not in ("-1", "d"):
                 cl.add("length-limited-lookup")
-            if o[0] in ("lt", "li", "lm") and int(o[1], 0) >= 0x1000:
+            if o[0] in ("lt", "li", "lm") and int(o[1], 0) >= 0x1000 and not hdr:
                 cl.add("id-beyond-shared-range")
         for k, cap, lab in (("b", 64, "basic"), ("g", 1792, "generic"), ("i", 48, "interface"), ("m", 1791, "metatype")):
             if tot[k] >= cap:
@@ -175,6 +226,11 @@ class C06(DiffProperty):
         for k in ("g", "m"):
             if tot[k] >= 29:
                 cl.add("chunk-boundary")
+        if any(o[0] == "fin" for o in ops):
+            cl.add("exit-cleanup")
+            k = [i for i, o in enumerate(ops) if o[0] == "fin"][0]
+            if k + 1 < len(ops):
+                cl.add("life-after-cleanup")
         if len(ops) > 1:
             cl.add("history")
         return cl
@@ -267,6 +323,76 @@ class C06(DiffProperty):
         ops.append("sw")
         return " ".join(ops)
 
+    def cxx_history(self, rng, nops):
+        """a history that uses only what the C++ wrappers offer (marker "cxx")"""
+        pool, ids, ops = [], [], []
+        nb = ng = ni = nm_ = 0
+        for _ in range(nops):
+            r = rng.random()
+            if r < 0.45:
+                if rng.random() < 0.5:
+                    i = rng.choice(ids + [x for x in EDGE_IDS if x < 2**31] + [-1, -128, -0x90, -4096, -2**31, 2**31 - 1])
+                    ops.append("lt %d" % i)
+                else:
+                    nm = self.rand_name(rng, pool + BUILTIN_NAMES + ALIASES)
+                    base = len(nm) if nm not in ("-", "%") else 0
+                    ops.append("ln %s %s" % (nm, rng.choice(["d", "d", "-1", "0", str(base), str(base - 1), str(base + 1), "4"])))
+                continue
+            k = rng.choice(["ba", "ga", "ia", "ia", "ma", "ma", "N"])
+            if k == "ba":
+                ops.append("ba %d" % rng.choice([0, 1, 8, 24, 256, 2**40]))
+                ids.append(0xc0 + nb)
+                nb += 1
+            elif k == "ga":
+                sz = rng.choice([0, 1, 8, 16, 24, 4096])
+                ops.append("ga %d %d" % (sz, rng.randrange(4)))
+                if sz:
+                    ids.append(0x900 + ng)
+                    ng += 1
+            elif k in ("ia", "ma"):
+                nm = self.rand_name(rng, pool)
+                ops.append("%s %s" % (k, nm))
+                if nm not in ("-", "%"):
+                    pool.append(nm)
+                if k == "ia":
+                    ids.append(0x90 + ni)
+                    ni += 1
+                else:
+                    ids.append(0x101 + nm_)
+                    nm_ += 1
+            else:
+                kk = rng.choice(["baN", "gaN", "iaN", "maN"])
+                c = rng.choice([1, 2, 29, 30, 31, 65])
+                if kk in ("baN", "gaN"):
+                    ops.append("%s %d %d" % (kk, c, rng.choice([0, 8, 16])))
+                else:
+                    pre = rng.choice(["nm", "type", "x.y"]) + chr(ord("a") + len(pool) % 26)
+                    ops.append("%s %d %s" % (kk, c, pre))
+                    pool += [pre + str(i) for i in (0, c - 1)]
+        ops += ["lt %d" % i for i in ids[-6:]]
+        return "cxx " + " ".join(ops)
+
+    def cxx_cases(self, rng, tier):
+        ints = [-2**31, -2**31 + 1, -65536, -4096, -0x900, -256, -0x90, -129, -128, -1, 0, 1, 0xb, 0x18, 0x40, 0x63, 0x69, 0x80,
+                0x81, 0x88, 0x89, 0x90, 0xbf, 0xc0, 0xff, 0x100, 0x101, 0x7ff, 0x800, 0x803, 0x804, 0x900, 0xfff, 0x1000, 65536,
+                2**31 - 1]
+        cases = ["cxx " + " ".join("lt %d" % i for i in ints)]
+        cases.append("cxx " + " ".join("ln %s d ln %s -1 ln %s %d ln %sx %d" % (n, n, n, len(n), n, len(n)) for n in BUILTIN_NAMES + ALIASES)
+                     + " ln - d ln % d ln - 3")
+        cases.append("cxx ia hello ma hello ln hello d ln hello 5 lt 144 lt 257 ma world ia world ln world d lt -144")
+        cases.append("cxx ma logger ia iter ia meta ma abc ia abc ia - ma - ia - lt 144 lt 145 lt 257 ln logger d ln iter d")
+        cases.append("cxx ga 8 3 ga 0 0 ga 24 1 ba 0 ba 5 lt 2304 lt 2305 lt 2306 lt 192 lt 193 lt 194 lt -2304")
+        for c in (63, 64, 65):
+            cases.append("cxx baN %d 3 lt 255 lt 254 ba 9 lt %d" % (c, 0xc0 + c - 1))
+        for c in (47, 48, 49):
+            cases.append("cxx iaN %d iface lt 191 lt 190 ia extra1 ia - ln iface0 d ln iface47 d" % c)
+        for c in ((29, 30, 31, 1791, 1792) if tier == "quick" else (1, 29, 30, 31, 59, 60, 61, 1790, 1791, 1792, 1800)):
+            cases.append("cxx maN %d meta lt 256 lt %d lt %d ma last1 ma - ln meta%d d" % (c, 0x100 + c, 0x101 + c, c - 1))
+            cases.append("cxx gaN %d 24 lt 2304 lt %d lt %d ga 8 3 ga 16 1" % (c, 0x900 + c - 1, 0x900 + c))
+        for i in range(40 if tier == "quick" else 3000):
+            cases.append(self.cxx_history(rng, rng.choice([3, 6, 10, 16, 25])))
+        return cases
+
     def generate(self, rng, tier):
         cases = []
         # A. the fresh registry: every id, every range end, every built-in name in every mode
@@ -312,6 +438,21 @@ class C06(DiffProperty):
             for i in range(40):
                 c1, c2 = rng.randrange(1700, 1800), rng.randrange(1700, 1800)
                 cases.append("gaN %d 8 maN %d q%d. %s" % (c1, c2, i, self.history(rng, 12)))
+        # G. process exit: the atexit clean-up after every kind of history, and the registry a later exit handler sees
+        cases.append("fin")
+        cases.append("fin sw fin")
+        cases.append("sw fin sw")
+        cases.append("ba 1 fin ba 2 lt 0xc0 lt 0xc1 fin")
+        cases.append("ia hello ma world ba 3 ga 8 3 ia - ma - sw fin ln hello -1 ln world -1 lt 0x90 lt 0x101 lt 0xc0 lt 0x900 ia hello ma world ga 8 1 sw fin fin")
+        cases.append("ia - fin ma - fin ga 8 0 fin ba 0 fin lt 1 fin lt 0x63 fin lt 0x43 fin li 0x80 fin lm 0x100 fin ln logger -1 fin al log 0 fin")
+        for c in ((30, 31, 1791) if tier == "quick" else (1, 29, 30, 31, 60, 61, 900, 1790, 1791, 1792)):
+            cases.append("maN %d meta gaN %d 8 fin maN 2 meta lm 0x101 lm 0x103 lt 0x900 sw" % (c, c))
+        cases.append("baN 70 1 iaN 50 ifc maN 40 mt gaN 40 16 sw fin baN 70 1 iaN 50 ifc sw fin sw")
+        for i in range(30 if tier == "quick" else 2000):
+            h1, h2 = self.history(rng, rng.choice([3, 8, 16])), self.history(rng, rng.choice([2, 6]))
+            cases.append("%s fin" % h1 if rng.random() < 0.3 else "%s fin %s fin" % (h1, h2))
+        # F. the same registry through the C++ wrappers of mpt++/type_traits_wrap.cpp
+        cases += self.cxx_cases(rng, tier)
         return cases
 
 
